@@ -330,11 +330,20 @@ def Forest.resourceFree : Forest → Bool
 termination_by structural f => f
 end
 
+/-- keys of an association list are pairwise distinct (true of every `IndexMap`) -/
+def keysDistinct {κ β : Type} [BEq κ] : List (κ × β) → Bool
+  | [] => true
+  | (k, _) :: r => !(r.any (fun e => e.1 == k)) && keysDistinct r
+
+def ModuleType.keysDistinct (m : ModuleType) : Bool :=
+  Wac.keysDistinct m.imports && Wac.keysDistinct m.exports
+
 mutual
 /-- names of every forest are pairwise distinct (true of anything built from an `IndexMap`);
 tuples are exempt (their items are unnamed) -/
 def Tree.namesDistinct : Tree → Bool
-  | .none | .prim _ | .flags _ | .enum _ | .module _ | .own _ | .borrow _ | .resource _ => true
+  | .module m => m.keysDistinct
+  | .none | .prim _ | .flags _ | .enum _ | .own _ | .borrow _ | .resource _ => true
   | .tuple f => f.subtreesDistinct
   | .variant f | .record f | .instance f => f.namesDistinct
   | .list t | .fixedList t _ | .option t | .stream t | .future t | .value t | .type t => t.namesDistinct
